@@ -340,7 +340,9 @@ _c("C01",
    "(C01_deser_as_entry); nested instances: the domain-checked deserializer deser_checked agrees with deser_struct whenever it returns "
    "(C01_deser_checked_agrees: deserialize_single_field is monotone in the function used for nested classes) and its result is valid "
    "together with every instance nested in it (C01_deser_deep_sound; both by structural induction over the deserializer's code). "
-   "Two assumptions of the hand-written model are re-derived from the working tree on every run: (1) HOW each "
+   "Omitted fields: construction fills them from the default through the same __set__ chain, and for a default FACTORY "
+   "(default=<callable>) whatever value it returns at that moment the instance is valid for the class as declared "
+   "(C01_construct_default_sound). Two assumptions of the hand-written model are re-derived from the working tree on every run: (1) HOW each "
    "entry point produces its result is a table read off the AST (Gen/EntrySites.v: kinds of every return statement of "
    "shallow_clone_with_overrides, cast_to, from_other_class, __deepcopy__, __copy__, __getstate__, deserialize_structure(_internal), "
    "Deserializer.deserialize); C01 is proved for EVERY safe table (C01_entry_sites_sound, C01_chain_sites_sound), an unsafe table has "
@@ -348,7 +350,10 @@ _c("C01",
    "(2) Enum._validate/__set__ are translated to Gallina (Gen/GuardsEnum.v) and proved equal to the model for every enum class, "
    "declared subset, literal list and value (C01_src_Enum_cls_set, C01_src_Enum_lit_set). On the implementation: a deterministic "
    "boundary lattice (47 scalar declarations x 20 collection/multi-field wrappers x the near-miss and falsy values of each x 7 entry "
-   "kinds incl. down- and up-casts between classes that re-declare a field) and random chains of 1-4 real entry points over generated "
+   "kinds incl. down- and up-casts between classes that re-declare a field) ; a defaults stream (every leaf declaration, alone and under the wrappers, as a field the caller OMITS, with every constant default "
+   "typedpy lets the class be defined with - falsy and conversion-needing ones included - and with a default factory made to return every "
+   "near-miss value after a conforming one at definition, through every entry point that can leave a field out; findings keyed "
+   ".../omitted-default:factory|falsy-constant|constant); and random chains of 1-4 real entry points over generated "
    "class environments are run step by step; every reified instance is judged by the independent spec (inst_ok, deep_valid) and compared "
    "with the model's run_entry inside Coq; JSON-shaped documents are additionally compared with the deserialization model.",
    "Trusted: Coq kernel + vm_compute; Instance.v/Entry.v/Deserialize.v hand-written (validated by correspondence); the two recognisers "
